@@ -747,6 +747,31 @@ struct Run
    }
 };
 
+// canonical text with the generated names of ordered children ("I<n>") made anonymous
+static std::string NormI(const std::string & t)
+{
+   std::string r;
+   for (size_t i=0; i<t.size(); i++)
+   {
+      const bool start = (t[i] == 'I')&&(i > 0)&&((t[i-1] == '/')||(t[i-1] == '[')||(t[i-1] == ','))&&(i+1 < t.size())&&(t[i+1] >= '0')&&(t[i+1] <= '9');
+      if (start)
+      {
+         size_t j = i+1; while((j < t.size())&&(t[j] >= '0')&&(t[j] <= '9')) j++;
+         if ((j == t.size())||(t[j] == '/')||(t[j] == '=')||(t[j] == ',')||(t[j] == ' ')||(t[j] == '{')||(t[j] == ']')||(t[j] == ';')) {r += "I#"; i = j-1; continue;}
+      }
+      r += t[i];
+   }
+   return r;
+}
+static std::string NormSorted(const std::string & t)   // for classification only: anonymous generated names, tokens as a multiset
+{
+   std::vector<std::string> tok = refl::Split(NormI(t), ' ');
+   std::sort(tok.begin(), tok.end());
+   std::string r; for (size_t i=0; i<tok.size(); i++) r += tok[i] + " ";
+   return r;
+}
+static const char * RECYCLED = "recycled-ordered-counter: the names INSERTORDEREDDATA generates depend on what the recycled DataNode was used for before";
+
 static bool IsPrivHost(const std::string & h) {return PrivBitsForHost(h) != 0;}
 
 // the events of script session K erased from ops[0..n): K's attach and every op of K
@@ -781,6 +806,9 @@ static void RunCase(long k, const std::string & line)
 {
    const size_t bar = line.find('|');
    if (bar == std::string::npos) return;
+   // label 'i': the stream with INSERTORDEREDDATA / REORDERDATA, which the Coq model does not cover: state lines are not printed
+   // (nothing to compare them with), only the verdicts of the oracles and a final marker
+   const bool quietCase = (bar > 0)&&(line[0] == 'i');
    std::vector<std::string> raw = Split(line.substr(bar+1), ';');
    std::vector<std::string> ops;
    for (size_t i=0; i<raw.size(); i++) if (!raw[i].empty()) ops.push_back(raw[i]);
@@ -794,7 +822,7 @@ static void RunCase(long k, const std::string & line)
       if (code == "x")
       {
          // ---------------------------------------------------------------- connection cut at byte level
-         if (!main->Alive(K)) {printf("%ld %d x! %s %s\n", k, (int)j, main->DrainInboxes().c_str(), main->TreeAndSessions().c_str()); break;}
+         if (!main->Alive(K)) {if (!quietCase) printf("%ld %d x! %s %s\n", k, (int)j, main->DrainInboxes().c_str(), main->TreeAndSessions().c_str()); break;}
          const std::string mode = (f.size() > 2) ? f[2] : "some";
          const std::string stream = (f.size() > 3) ? f[3] : "";
          std::vector<uint8> bytes; std::vector<size_t> cum;
@@ -856,18 +884,23 @@ static void RunCase(long k, const std::string & line)
             const int rounds = r.w.Pump();
             const std::string st = r.DrainInboxes() + " " + r.TreeAndSessions() + ((rounds >= 2000) ? " NO-QUIESCENCE" : "");
             if (!have[jj]) {have[jj] = true; perJ[jj] = st;}
-            else if ((perJ[jj] != st)&&(reported.insert("dep"+itos((long)jj)).second))
-               printf("%ld ORACLE FAIL cut-offset-dependent op#%d x%d byte %lu of %lu\n", k, (int)j, (int)jj, (unsigned long)B, (unsigned long)bytes.size());
+            else if (perJ[jj] != st)
+            {
+               if (NormSorted(perJ[jj]) == NormSorted(st)) {if (reported.insert("recycled").second) printf("%ld ORACLE FAIL %s op#%d x%d\n", k, RECYCLED, (int)j, (int)jj);}
+               else if (reported.insert("dep"+itos((long)jj)).second)
+                  printf("%ld ORACLE FAIL cut-offset-dependent op#%d x%d byte %lu of %lu\n", k, (int)j, (int)jj, (unsigned long)B, (unsigned long)bytes.size());
+            }
             const std::string tr = r.TraceOf(K);
             if ((!tr.empty())&&(reported.insert("tr"+itos((long)jj)+tr).second)) printf("%ld ORACLE FAIL detach-trace op#%d x%d byte %lu c%d %s\n", k, (int)j, (int)jj, (unsigned long)B, K, tr.c_str());
             if (unpriv)
             {
                if ((r.ObsWithout(K) != baseObs)&&(getenv("ISO_DEBUG"))) fprintf(stderr, "BASE: %s\nCUT:  %s\n", baseObs.c_str(), r.ObsWithout(K).c_str());
-               if ((r.ObsWithout(K) != baseObs)&&(reported.insert("ain"+itos((long)jj)).second)) printf("%ld ORACLE FAIL as-if-never op#%d x%d byte %lu c%d state differs from the run without the session\n", k, (int)j, (int)jj, (unsigned long)B, K);
+               if ((r.ObsWithout(K) != baseObs)&&(NormSorted(r.ObsWithout(K)) == NormSorted(baseObs))) {if (reported.insert("recycled").second) printf("%ld ORACLE FAIL %s op#%d x%d\n", k, RECYCLED, (int)j, (int)jj);}
+               else if ((r.ObsWithout(K) != baseObs)&&(reported.insert("ain"+itos((long)jj)).second)) printf("%ld ORACLE FAIL as-if-never op#%d x%d byte %lu c%d state differs from the run without the session\n", k, (int)j, (int)jj, (unsigned long)B, K);
                else if ((!r.quietUsed)&&(!baseQuiet)&&(r.MirrorsWithout(K) != baseMir)&&(reported.insert("aim"+itos((long)jj)).second)) printf("%ld ORACLE FAIL as-if-never op#%d x%d byte %lu c%d a client mirror differs from the run without the session\n", k, (int)j, (int)jj, (unsigned long)B, K);
             }
          }
-         for (size_t jj=0; jj<=n; jj++) printf("%ld %d x%d %s\n", k, (int)j, (int)jj, have[jj] ? perJ[jj].c_str() : "<not reached>");
+         if (!quietCase) for (size_t jj=0; jj<=n; jj++) printf("%ld %d x%d %s\n", k, (int)j, (int)jj, have[jj] ? perJ[jj].c_str() : "<not reached>");
          fflush(stdout);
          break;   // a cut is the last op of a case
       }
@@ -878,7 +911,8 @@ static void RunCase(long k, const std::string & line)
       if ((isCmd)&&(applies)) before = main->ForeignView(K);
       bool valid = false;
       const std::string st = main->Exec(ops[j], &valid, NULL);
-      printf("%ld %d %s\n", k, (int)j, st.c_str());
+      if (!quietCase) printf("%ld %d %s\n", k, (int)j, st.c_str());
+      else if (st.find("NO-QUIESCENCE") != std::string::npos) printf("%ld ORACLE FAIL no-quiescence op#%d\n", k, (int)j);
       if ((isCmd)&&(applies)&&(valid)&&(main->w.alive(main->widx[K])))
       {
          const std::string after = main->ForeignView(K);
@@ -894,13 +928,15 @@ static void RunCase(long k, const std::string & line)
             Run base(K);
             for (size_t i=0; i<j; i++) (void) base.Exec(ops[i], NULL, NULL);
             if ((base.ObsWithout(K) != main->ObsWithout(K))&&(getenv("ISO_DEBUG"))) fprintf(stderr, "BASE: %s\nMAIN: %s\n", base.ObsWithout(K).c_str(), main->ObsWithout(K).c_str());
-            if (base.ObsWithout(K) != main->ObsWithout(K)) printf("%ld ORACLE FAIL as-if-never op#%d c%d state differs from the run without the session\n", k, (int)j, K);
+            if ((base.ObsWithout(K) != main->ObsWithout(K))&&(NormSorted(base.ObsWithout(K)) == NormSorted(main->ObsWithout(K)))) printf("%ld ORACLE FAIL %s op#%d\n", k, RECYCLED, (int)j);
+            else if (base.ObsWithout(K) != main->ObsWithout(K)) printf("%ld ORACLE FAIL as-if-never op#%d c%d state differs from the run without the session\n", k, (int)j, K);
             else if ((!base.quietUsed)&&(!main->quietUsed)&&(base.MirrorsWithout(K) != main->MirrorsWithout(K))) printf("%ld ORACLE FAIL as-if-never op#%d c%d a client mirror differs from the run without the session\n", k, (int)j, K);
          }
       }
       fflush(stdout);
    }
    delete main;
+   if (quietCase) printf("%ld i\n", k);
 }
 
 int main(int, char **)
